@@ -293,16 +293,6 @@ impl VisitMut for Passes {
                     // R-FORMAT: message text is in no property; the formatted String becomes an opaque String
                     self.log.push(format!("R-FORMAT line {}", line_of(&m.mac.path)));
                     *e = parse_quote!( v_format() );
-                } else if name == "vec" {
-                    // vec![x; n] -> v_vec_from_elem(x, n) (vstd has no spec for the macro's expansion)
-                    let ts = m.mac.tokens.clone();
-                    let parsed: Result<VecRepeat> = syn::parse2(ts);
-                    if let Ok(vr) = parsed {
-                        let (mut x, mut n) = (vr.elem, vr.len);
-                        self.visit_expr_mut(&mut x); self.visit_expr_mut(&mut n);
-                        self.log.push(format!("R-VECMACRO line {}", line_of(&m.mac.path)));
-                        *e = parse_quote!( v_vec_from_elem(#x, #n) );
-                    }
                 }
             }
             _ => {}
@@ -310,6 +300,21 @@ impl VisitMut for Passes {
     }
 }
 
+struct OpaqueVisitor { prefix: String, repl: String, hit: Option<String> }
+impl VisitMut for OpaqueVisitor {
+    fn visit_local_mut(&mut self, l: &mut Local) {
+        let whole = norm(l);
+        if self.hit.is_none() && whole.starts_with(&self.prefix) {
+            if let Some(init) = &mut l.init {
+                self.hit = Some(fnv(&norm(&init.expr)));
+                let e: Expr = parse_str(&self.repl).unwrap();
+                init.expr = Box::new(e);
+                return;
+            }
+        }
+        visit_mut::visit_local_mut(self, l);
+    }
+}
 struct VecRepeat { elem: Expr, len: Expr }
 impl syn::parse::Parse for VecRepeat {
     fn parse(input: syn::parse::ParseStream) -> Result<Self> {
@@ -522,7 +527,7 @@ fn load_contracts(paths: &[String]) -> Contracts {
                 e.push_str(&format!("//@vc {}:{}\n", path, ln + 1));
                 continue;
             }
-            if let Some(rest) = line.strip_prefix('#') {
+            if let Some(rest) = line.strip_prefix('#').filter(|_| !line.starts_with("#[")) {
                 let parts: Vec<&str> = rest.split_whitespace().collect();
                 if parts.is_empty() { continue; }
                 let k = match parts[0] {
@@ -530,6 +535,7 @@ fn load_contracts(paths: &[String]) -> Contracts {
                     "ensures" => format!("__vx_ens_{}", f),
                     "spec" => format!("__vx_spec_{}", f),
                     "fs" => format!("__vx_fs_{}", f),
+                    "attr" => format!("__vx_attr_{}", f),
                     "inv" | "dec" | "bs" | "be" | "pre" | "post" => {
                         if parts.len() < 2 { eprintln!("VX-ERROR {}:{} missing loop ordinal", path, ln + 1); std::process::exit(4); }
                         let kk: usize = parts[1].parse().unwrap_or(0);
@@ -585,6 +591,8 @@ fn substitute(text: &str, c: &Contracts) -> String {
             let dec = m.get(&format!("__vx_dec_{}", suffix));
             if let Some(t) = m.get(id) { out.push_str("\n//@vc-begin invariant\n invariant\n"); out.push_str(t); out.push_str("//@vc-end\n"); }
             if let Some(t) = dec { out.push_str("\n//@vc-begin decreases\n decreases\n"); out.push_str(t); out.push_str("//@vc-end\n"); }
+        } else if id.starts_with("__vx_attr_") {
+            if let Some(t) = m.get(id) { for l in t.lines() { if !l.starts_with("//@vc") { out.push_str(l); out.push('\n'); } } }
         } else if id.starts_with("__vx_cl_") {
             if let Some(t) = m.get(id) { out.push_str("\n//@vc-begin closure\n"); out.push_str(t); out.push_str("//@vc-end\n"); }
         } else if let Some(txt) = m.get(id) {
@@ -875,31 +883,21 @@ fn process_fn(cx: &mut Ctx, vis: &Visibility, sig: &Signature, block: &Block, in
         block = nb;
         cx.p.log.push(format!("R-MUTSELF fn {}", name));
     }
-    // R-OPAQUE sites
-    for (f, prefix, repl) in cx.o.opaque.iter() {
-        if *f != name { continue; }
-        let pn: String = prefix.split_whitespace().collect::<Vec<_>>().join("");
-        let mut hit = false;
-        for st in block.stmts.iter_mut() {
-            if let Stmt::Local(l) = st {
-                let whole = norm(l);
-                if whole.starts_with(&pn) {
-                    if let Some(init) = &mut l.init {
-                        let h = fnv(&norm(&init.expr));
-                        let e: Expr = parse_str(repl).unwrap();
-                        init.expr = Box::new(e);
-                        cx.p.log.push(format!("R-OPAQUE fn {} site '{}' exprhash {}", name, prefix, h));
-                        hit = true;
-                    }
-                }
-            }
-        }
-        if !hit { cx.errors.push(format!("ANCHOR-LOST opaque site '{}' in fn {}", prefix, name)); }
-    }
     {
         let mut b2 = block.clone();
         cx.p.visit_block_mut(&mut b2);
         block = b2;
+    }
+    // R-OPAQUE sites (after the passes, so attributes are already stripped)
+    for (f, prefix, repl) in cx.o.opaque.iter() {
+        if *f != name { continue; }
+        let pn: String = prefix.split_whitespace().collect::<Vec<_>>().join("");
+        let mut ov = OpaqueVisitor { prefix: pn, repl: repl.clone(), hit: None };
+        ov.visit_block_mut(&mut block);
+        match ov.hit {
+            Some(h) => cx.p.log.push(format!("R-OPAQUE fn {} site '{}' exprhash {}", name, prefix, h)),
+            None => cx.errors.push(format!("ANCHOR-LOST opaque site '{}' in fn {}", prefix, name)),
+        }
     }
     let mut a = Annot {
         fkey: fkey.clone(), counter: 0, ccounter: 0,
@@ -924,7 +922,7 @@ fn process_fn(cx: &mut Ctx, vis: &Visibility, sig: &Signature, block: &Block, in
     let ts = quote!( #[verifier::loop_isolation(false)] #vis_ts fn #ident #generics ( #inputs ) #ret #wc #head { #fs; #(#stmts)* } );
     let mut s = String::new();
     print_tokens(ts, &mut s, &mut ll);
-    cx.out.push_str(&format!("//@vx-fn-begin {} body src={} label={}\n", fkey, src, cx.o.label));
+    cx.out.push_str(&format!("//@vx-fn-begin {} body src={} label={}\n__vx_attr_{}\n", fkey, src, cx.o.label, fkey));
     cx.out.push_str(&if cx.o.mono { mono_paths(&s) } else { s });
     cx.out.push_str(&format!("\n//@vx-fn-end {}\n\n", fkey));
     cx.found.push(name);
